@@ -81,6 +81,11 @@ class SqliteStateStore(Generic[MODEL_T]):
             return self._shared_conn
         return sqlite3.connect(self._db_path, timeout=30.0)
 
+    def _release(self, conn: sqlite3.Connection) -> None:
+        """Close a per-call connection; the shared one belongs to the workflow store."""
+        if conn is not self._shared_conn:
+            conn.close()
+
     def _write_in_memory_state(self, serialized_state: dict[str, Any]) -> None:
         """Migrate InMemory-format state into the database."""
         state = deserialize_state_from_dict(serialized_state, self._serializer)
@@ -116,7 +121,7 @@ class SqliteStateStore(Generic[MODEL_T]):
             )
             conn.commit()
         finally:
-            conn.close()
+            self._release(conn)
 
     def _serialize_state(self, state: MODEL_T) -> str:
         """Serialize state model to JSON string."""
@@ -151,7 +156,7 @@ class SqliteStateStore(Generic[MODEL_T]):
                 return state
             return self._deserialize_state(row[0])
         finally:
-            conn.close()
+            self._release(conn)
 
     def _save_state(
         self, state: MODEL_T, conn: sqlite3.Connection | None = None
@@ -186,7 +191,7 @@ class SqliteStateStore(Generic[MODEL_T]):
                 conn.commit()
         finally:
             if should_close:
-                conn.close()
+                self._release(conn)
 
     async def get_state(self) -> MODEL_T:
         """Return a copy of the current state model."""
@@ -214,7 +219,7 @@ class SqliteStateStore(Generic[MODEL_T]):
             self._save_state(merged, conn)  # type: ignore[arg-type]
             conn.commit()
         finally:
-            conn.close()
+            self._release(conn)
 
     async def get(self, path: str, default: Any = ...) -> Any:
         """Get a nested value using dot-separated paths."""
